@@ -5,9 +5,8 @@ from props import gen_props
 
 def run(ctx):
     from props import gen_unbounded
-    gen_unbounded.run_multiclient_cfg(ctx)   # any interface / settings: fixture or MultiClientCfgError, never an internal error
-    only = os.environ.get('PYVC_SHAPES')
-    gen_props.run_property(ctx, 'C13', only.split(',') if only else None)
+    # the composition on the shape corpus, then the unbounded function contracts (DESIGN.md 8.6)
+    gen_unbounded.run_with_composition(ctx, 'C13', [('mc-cfg', gen_unbounded.run_multiclient_cfg)])
 
 
 def make_replay(ctx, o):
